@@ -29,6 +29,18 @@ def exec_run(wm_or_world, check, plan, knobs, ctx=None, keep_root=False, is_worl
     return out
 
 
+def env_knobs(rng, knobs):
+    """Per-run environment variation (swarm): argv spelling, relative TMPDIR, trailing slash."""
+    if rng.random() < 0.3:
+        knobs["argv_style"] = rng.choice(["long", "long_eq", "check_first"])
+    r = rng.random()
+    if r < 0.12:
+        knobs["tmpdir_rel"] = True
+    elif r < 0.2:
+        knobs["tmpdir_slash"] = True
+    return knobs
+
+
 def base_plan(plan):
     return {"seed": plan.get("seed", 1), "perm": plan.get("perm", False), "faults": []}
 
